@@ -458,6 +458,16 @@ def project_layouts():
     # names the VM registers on its own: no `needs` at all
     add("builtin-print", {"main.aelys": "fn sq(x) { return x * x }\nprint(sq(7))\n"})
     add("builtin-print-and-module", {"main.aelys": "needs helpers\nprint(helpers.inc(41))\n", "helpers.aelys": inc})
+    # function values are printable: the name is part of the observable value at every level
+    add("fn-name-printed", {"main.aelys": io + "fn show() { return 1 }\nio.println(show)\n"})
+    add("fn-name-lambda", {"main.aelys": io + "let l = fn() { return 2 }\nio.println(l)\n"})
+    add("fn-name-interpolated", {"main.aelys": io + "fn show() { return 1 }\nio.println(\"{show} and {show}\")\n"})
+    add("fn-name-nested", {"main.aelys": io + "fn outer() {\n  fn inner() { return 1 }\n  return inner\n}\nio.println(outer())\nio.println(outer)\n"})
+    add("fn-name-closure", {"main.aelys": io + "fn make(n) {\n  return fn() { return n }\n}\nlet c = make(3)\nio.println(c)\nio.println(make)\n"})
+    add("fn-name-in-collection", {"main.aelys": io + "fn a() { return 1 }\nfn b() { return 2 }\nio.println([a, b])\nlet v = Vec[a]\nio.println(v)\n"})
+    add("fn-name-to-string", {"main.aelys": io + "fn show() { return 1 }\nlet s = \"{show}\"\nio.println(s.len())\n"})
+    add("fn-name-from-module", {"main.aelys": io + "needs helpers\nio.println(helpers.inc)\n", "helpers.aelys": inc})
+    add("fn-name-builtin-print", {"main.aelys": "fn show() { return 1 }\nprint(show)\n"})
     # a run-time error: kind, message and position of the report
     add("runtime-error-in-function", {"main.aelys": io + "fn d(a, b) {\n    return a / b\n}\nio.println(d(1, 0))\n"})
     add("runtime-error-in-module", {"main.aelys": io + "needs helpers\nio.println(helpers.d(1, 0))\n", "helpers.aelys": "pub fn d(a, b) {\n    return a / b\n}\n"})
@@ -512,7 +522,7 @@ def multi_file_cases(ctx, wd):
             q = subprocess.run([cli] + args, stdout=subprocess.PIPE, stderr=subprocess.PIPE, timeout=60, cwd=os.path.join(dst, cwd))
             return q.returncode, q.stdout.decode("utf-8", "replace"), q.stderr.decode("utf-8", "replace")
         prog = prog or next((t for r_, t in files.items() if r_.endswith("main.aelys")), "")
-        for opt in (0, 2):
+        for opt in ((0, 1, 2, 3) if name.startswith("fn-name-") or name == "corpus-function_names" else (0, 2)):
             base = run(["run", f"-O{opt}", entry])
             for route, make, saved in (("avbc", ["compile", f"-O{opt}", entry, "-o", f"{stem}{opt}.avbc"], f"{stem}{opt}.avbc"),
                                        ("aasm", ["asm", f"-O{opt}", entry, "-o", f"{stem}{opt}.aasm"], f"{stem}{opt}.aasm")):
@@ -533,7 +543,8 @@ def multi_file_cases(ctx, wd):
                     elif (u := re.search(r"undefined variable '(\w+)", r[2])) and re.search(r"needs\s+[\w\s,]*\b" + re.escape(u.group(1)) + r"\b[\w\s,]*\sfrom\s+(?!std\.)", prog):
                         sig = f"{route}:symbol-import-not-resolvable"     # `needs inc from helpers`: the saved global is just `inc`
                     else:
-                        sig = f"cli:{route}:multi-file-differs:" + ("entry-path-form" if name.startswith("entry-") else name)
+                        sig = (f"{route}:function-name-lost" if (name.startswith("fn-name-") or name == "corpus-function_names") and "<anonymous>" in r[1] else
+                               f"cli:{route}:multi-file-differs:" + ("entry-path-form" if name.startswith("entry-") else name))
                 elif base[0] != 0 and opt == 0 and report_lines(r[2], os.path.basename(stem)) != report_lines(base[2], os.path.basename(stem)):
                     # -O0 keeps the line table in .avbc (higher levels strip it on purpose)
                     sig = f"{route}:error-position-differs"
